@@ -142,6 +142,13 @@ type SchedResult struct {
 // RunSchedules enumerates all schedules with at most `bound` preemptions.  setup runs before every
 // execution and returns the thread bodies; check runs after it.
 func RunSchedules(bound int, maxExec int64, stop func() bool, setup func(s *Sched) []func(), check func(r SchedResult)) SchedStats {
+	return RunSchedulesSharded(bound, maxExec, stop, nil, true, setup, check)
+}
+
+// RunSchedulesSharded distributes the first-level subtrees (one per alternative at each point of the
+// default schedule) over shards: mineTop is asked once per subtree; the default schedule itself is
+// checked only when checkRoot is set.
+func RunSchedulesSharded(bound int, maxExec int64, stop func() bool, mineTop func() bool, checkRoot bool, setup func(s *Sched) []func(), check func(r SchedResult)) SchedStats {
 	var st SchedStats
 	s := &Sched{}
 	var rec func(prefix []int, cost int)
@@ -155,7 +162,10 @@ func RunSchedules(bound int, maxExec int64, stop func() bool, setup func(s *Sche
 		}
 		bodies := setup(s)
 		s.run(prefix, bodies)
-		st.Schedules++
+		root := len(prefix) == 0
+		if !root || checkRoot {
+			st.Schedules++
+		}
 		if s.diverg {
 			panic(fmt.Sprintf("mc.RunSchedules: harness nondeterministic: prefix %v met fewer options than recorded", prefix))
 		}
@@ -170,7 +180,9 @@ func RunSchedules(bound int, maxExec int64, stop func() bool, setup func(s *Sche
 		for _, t := range s.threads {
 			res.Panics = append(res.Panics, t.pnc)
 		}
-		check(res)
+		if !root || checkRoot {
+			check(res)
+		}
 		for i := len(prefix); i < len(tr); i++ {
 			c := cost
 			if !tr[i].free {
@@ -180,6 +192,9 @@ func RunSchedules(bound int, maxExec int64, stop func() bool, setup func(s *Sche
 				continue
 			}
 			for alt := 1; alt < tr[i].n; alt++ {
+				if root && mineTop != nil && !mineTop() {
+					continue
+				}
 				np := make([]int, i+1)
 				for j := 0; j < i; j++ {
 					np[j] = tr[j].choice
